@@ -29,6 +29,21 @@ class D(frozenset):
         return 'dep{%s}' % ','.join(str(x) for x in sorted(self))
 
 
+class It:
+    """iterator value: a position in a sequence (index) or in a map (key, or END)"""
+    END = ('<end>',)
+    __slots__ = ('c', 'k')
+
+    def __init__(self, c, k):
+        self.c, self.k = c, k
+
+    def same(self, o):
+        return isinstance(o, It) and self.c is o.c and self.k == o.k
+
+    def __repr__(self):
+        return 'it@%s' % (self.k,)
+
+
 class _Return(Exception):
     def __init__(self, v):
         self.v = v
@@ -405,9 +420,21 @@ class Interp:
             sa, sb = self.cstr(a_), self.cstr(b_)
             if sa is not None and sb is not None:
                 return int((sa == sb) == (name == 'operator=='))
+            if isinstance(a_, It) and isinstance(b_, It):
+                return int(a_.same(b_) == (name == 'operator=='))
             if (self.is_callable(a_) or a_ in (0, None)) and (self.is_callable(b_) or b_ in (0, None)):
                 eq = (a_ in (0, None)) == (b_ in (0, None)) and (a_ in (0, None) or a_ is b_)
                 return int(eq if name == 'operator==' else not eq)
+        if name in ('operator++', 'operator--') and isinstance(objv, It) and 'obj' in st:
+            d_ = 1 if name == 'operator++' else -1
+            if isinstance(objv.c, dict):
+                ks = [k_ for k_ in objv.c if k_ != '__map__']
+                pos = ks.index(objv.k) + d_ if objv.k in ks else len(ks)
+                nv = It(objv.c, ks[pos] if 0 <= pos < len(ks) else It.END)
+            else:
+                nv = It(objv.c, objv.k + d_)
+            self.write(f, st, self.lv(f, st['obj'], env), nv, env)
+            return objv if args else nv         # the postfix form carries a dummy int argument
         callee = st.get('callee') or ''
         if callee.startswith('std::chrono::') or cls_.startswith('std::chrono::'):
             # durations and time points are plain numbers (ticks of the model clock)
@@ -598,6 +625,9 @@ class Interp:
             if rec is not None:
                 return ('dict', rec, st['n'])
             if self.faults:
+                raise _Abort()
+            if st.get('arrow') and self.ev(f, st['ch'][0], env) == 0:
+                self.fault(f, st, 'a null pointer is dereferenced (->%s)' % st.get('n'))
                 raise _Abort()
         if k == 'ArraySubscriptExpr':
             b, i = self.ev(f, st['ch'][0], env), self.ev(f, st['ch'][1], env)
@@ -792,6 +822,8 @@ class Interp:
                 loc = self.lv(f, st['ch'][0], env)
                 if loc[0] == 'mem':
                     return loc[1]
+                if loc[0] == 'global' and isinstance(self.globals.get(loc[1]), P):
+                    return self.globals[loc[1]]
                 if loc[0] == 'dict' and isinstance(loc[1].get(loc[2]), dict):
                     name = 'rec@%d' % id(loc[1][loc[2]])
                     self.mem[name] = loc[1][loc[2]]
@@ -901,6 +933,10 @@ class Interp:
                 return P(name, 0)
             cls = (st.get('cat') or st.get('at') or '')
             if cls in self.prog.classes:
+                if st.get('ch'):
+                    v = self.ev(f, st['ch'][-1], env)       # new T{...} / new T(args): the initialiser builds the object
+                    if self.record_of(v) is not None:
+                        return v
                 rec = self.new_record(cls)
                 self._keep.append(rec)
                 return self.ref(rec)
@@ -1058,3 +1094,85 @@ VECTOR_HOOKS = {
     'max': _numeric_limit('max'),
     'min': _numeric_limit('min'),
 }
+
+
+# ---- iterators over sequences and maps ---------------------------------------------------------------------------------------------
+
+def _keys(m):
+    return [k_ for k_ in m if k_ != '__map__']
+
+
+def _find(it, f, st, a):
+    m = _vec(it, f, st)
+    if isinstance(m, dict):
+        key = it.cstr(a[0]) if it.cstr(a[0]) is not None else a[0]
+        return It(m, key if key in m else It.END)
+    for i, x in enumerate(m):
+        if x == a[0]:
+            return It(m, i)
+    return It(m, len(m))
+
+
+def _begin(it, f, st, a):
+    v = _vec(it, f, st)
+    if isinstance(v, dict):
+        ks = _keys(v)
+        return It(v, ks[0] if ks else It.END)
+    return It(v, 0)
+
+
+def _end(it, f, st, a):
+    v = _vec(it, f, st)
+    return It(v, It.END if isinstance(v, dict) else len(v))
+
+
+def _deref(it, f, st, a):
+    x = it.cur_obj if isinstance(it.cur_obj, It) else (a[0] if a and isinstance(a[0], It) else None)
+    if x is None:
+        raise AnalysisBroken('%s: dereference of something the replay does not hold as an iterator (%s)' % (f.short, f.loc(st['i'])))
+    if isinstance(x.c, dict):
+        if x.k is It.END or x.k not in x.c:
+            it.fault(f, st, 'the end iterator of a map is dereferenced')
+            raise _Abort()
+        pair = {'__cls__': None, '__open__': True, 'first': x.k, 'second': x.c[x.k]}
+        it._keep.append(pair)
+        return it.ref(pair)
+    if not (0 <= x.k < len(x.c)):
+        it.fault(f, st, 'an iterator at position %s of a sequence of %d element(s) is dereferenced' % (x.k, len(x.c)))
+        raise _Abort()
+    e = x.c[x.k]
+    return it.ref(e) if isinstance(e, dict) else e
+
+
+def _find_if(it, f, st, a):
+    b, e, pred = a[0], a[1], a[2]
+    if not (isinstance(b, It) and isinstance(e, It) and isinstance(b.c, list)):
+        raise AnalysisBroken('%s: std::find_if over something the replay does not hold as a sequence (%s)' % (f.short, f.loc(st['i'])))
+    for i in range(b.k, e.k):
+        x = b.c[i]
+        if it.invoke(f, st, pred, [it.ref(x) if isinstance(x, dict) else x]):
+            return It(b.c, i)
+    return It(b.c, e.k)
+
+
+def _erase(it, f, st, a):
+    v = _vec(it, f, st)
+    x = a[0]
+    if isinstance(v, dict):
+        key = x.k if isinstance(x, It) else (it.cstr(x) if it.cstr(x) is not None else x)
+        return int(v.pop(key, None) is not None) if not isinstance(x, It) else (v.pop(key, None), It(v, It.END))[1]
+    if isinstance(x, It):
+        if len(a) == 2 and isinstance(a[1], It):
+            del v[x.k:a[1].k]
+        elif 0 <= x.k < len(v):
+            del v[x.k]
+        return It(v, x.k)
+    raise AnalysisBroken('%s: erase with an argument the replay does not understand (%s)' % (f.short, f.loc(st['i'])))
+
+
+VECTOR_HOOKS.update({'find': _find, 'begin': _begin, 'end': _end, 'cbegin': _begin, 'cend': _end, 'operator->': _deref, 'operator*': _deref, 'find_if': _find_if, 'erase': _erase,
+                     'count': lambda it, f, st, a: int((it.cstr(a[0]) if it.cstr(a[0]) is not None else a[0]) in _vec(it, f, st)),
+                     'back': lambda it, f, st, a: _elem(it, f, st, _vec(it, f, st), len(_vec(it, f, st)) - 1, 'back', False),
+                     'front': lambda it, f, st, a: _elem(it, f, st, _vec(it, f, st), 0, 'front', False),
+                     'pop_back': lambda it, f, st, a: _vec(it, f, st).pop() if _vec(it, f, st) else it.fault(f, st, 'pop_back on an empty sequence'),
+                     })
